@@ -1112,6 +1112,18 @@ func runArchiveReplay(args []string) int {
 		defer cl()
 	}
 	rep := newReport("archive/" + mode)
+	if mode == "scan" {
+		bdir, _ := os.MkdirTemp("", "vh-big-")
+		for _, v := range bigBlockCases(bdir) {
+			rep.violate("roundtrip/large-block/"+v[0], "one 5 MiB block after a small one: "+v[1], map[string]any{"family": "big-block"})
+		}
+		os.RemoveAll(bdir)
+		rep.eval("big-block", true)
+		if m := rootReaderLifecycle(); m != "" {
+			rep.violate("roundtrip/read/root.CarReader/lifecycle", m, map[string]any{"family": "reader-lifecycle"})
+		}
+		rep.eval("reader-lifecycle", true)
+	}
 	if mode == "idx" {
 		// beyond the 2^16 boundary: one archive of 70 000 sections through every index kind
 		for _, v := range bigIndexCases() {
